@@ -532,6 +532,7 @@ func (fr *Frame) mapFacts(m Term, mh *mapHeaps, k Term) {
 	ln := sel(vc.heap(fr.st, mh.ln, mh.lnS), m)
 	vc.assume(fr.reach, sx(">=", ln, "0"))
 	if k != "" {
+		vc.mapKeys[mh.dom] = append(vc.mapKeys[mh.dom], k)
 		vc.assume(fr.reach, imp(sel(sel(vc.heap(fr.st, mh.dom, mh.domS), m), k), sx(">=", ln, "1")))
 	}
 }
